@@ -68,6 +68,15 @@ let handle (line : string) : string =
           | TopErrAssigned t -> "ERR-ASSIGNED " ^ tree t
           | TopErr -> "ERR"
           | TopFuel -> "FUEL")
+     | "S" :: _ ->
+         (* S <dump of e>: the model's str(e) and what the reference parser makes of it *)
+         let d = String.sub f0 2 (String.length f0 - 2) in
+         let e = expr_of_string (String.trim d) in
+         if not (printable e) then "UNSUPPORTED not printable"
+         else
+           let s = print e in
+           hex_of_bytes s ^ "\t" ^ outcome (parse_ref s true)
+     | "D" :: h :: _ -> hex_of_bytes (print_double (n_of_hex h))
      | "H" :: conv :: tl ->
          let ins = match tl with h :: _ -> List.map bytes_of_hex (String.split_on_char ',' h) | [] -> [] in
          let c = (conv = "1") in
